@@ -294,9 +294,11 @@ let () =
       match split_ws head with
       | [id; "kv"; kind; fail_at; mode] when kind = "plain" || kind = "batched" -> run_kv id kind fail_at mode body
       | id :: "crash" :: _ -> Printf.printf "%s crash ok\n" id
+      | [id; "crashtorn"; kind; mlfs; _] when (kind = "tan" || kind = "tanmux")
+          && (try int_of_string mlfs >= 0 with _ -> false) -> Printf.printf "%s crashtorn ok\n" id
       | [id; "crashseq"; kind; mlfs] when (kind = "tan" || kind = "tanmux" || kind = "plain" || kind = "batched")
           && (try int_of_string mlfs >= 0 with _ -> false) -> Printf.printf "%s crashseq ok\n" id
-      | [id; "tanio"; kind; mlfs; k] when (kind = "tan" || kind = "tanmux")
+      | [id; "tanio"; kind; mlfs; k] when (kind = "tan" || kind = "tanmux" || kind = "plain" || kind = "batched")
           && (try int_of_string mlfs >= 0 with _ -> false)
           && (k = "all" || k = "none" || k = "fsall" || (try int_of_string k >= 0 with _ -> false)
               || (String.length k > 2 && String.sub k 0 2 = "fs"
